@@ -351,3 +351,11 @@ def c12_replay(rec):
     for i in rec["recipe"]["path"]:
         code = code.co_consts[i]
     return _c12_one("replay", code)
+
+
+def _load_more():
+    from . import props3  # noqa: F401  (registers more parts)
+    try:
+        from . import props4  # noqa: F401
+    except ImportError:
+        pass
